@@ -82,6 +82,7 @@ structure FunDef where
   params : List Name
   body   : Node
   guard  : Option Node := none
+  ptys   : List (Option TyTag) := []          -- declared parameter types, parallel to `params` (missing = untyped)
 deriving Repr, Inhabited
 
 end ChaiVerif.Chai
